@@ -2,6 +2,7 @@ import Bpmn.Props.C06
 import Bpmn.Props.C06Current
 open Bpmn.Props.C06
 #print axioms ebg_one_winner
+#print axioms final_absorbing
 #print axioms ebg_winner_never_blocks
 #print axioms ebg_no_block
 #print axioms ebg_bounded
